@@ -601,6 +601,11 @@ def logic(op, a, b):
     if za.sort() != B or zb.sort() != B:
         if za.sort() == PV: za = pv_truth(za)
         if zb.sort() == PV: zb = pv_truth(zb)
+        # boolean column combined with a 0/1 float column (pandas casts the float operand to bool)
+        if za.sort() == B and zb.sort() == R:
+            zb = zb != 0
+        elif zb.sort() == B and za.sort() == R:
+            za = za != 0
         if za.sort() != B or zb.sort() != B:
             raise EngineError(f"bitwise {op} on non-boolean symbolic values {a!r} {b!r}")
     if op == "&": return SV(z3.And(za, zb))
